@@ -113,6 +113,7 @@ fn retarget(op: &mut Op, t: u32) {
         | Op::ManualCheckpoint { thread, .. }
         | Op::CompactionAuto { thread, .. }
         | Op::CompactionSchedule { thread, .. }
+        | Op::RunWithReply { thread, .. }
         | Op::FullRun { thread, .. } => *thread = t,
         _ => {}
     }
